@@ -301,6 +301,10 @@ func (f *fakeStreamable) RoundTrip(req *http.Request) (*http.Response, error) {
 			if f.kind == "sse" {
 				return f.resp(req, 200, "text/event-stream", "event: message\ndata: "+frame+"\n\n"), nil
 			}
+			if how, ok := strings.CutPrefix(f.kind, "sse."); ok {
+				// the event stream as a foreign server or a proxy may frame it
+				return f.resp(req, 200, "text/event-stream", sseFraming(how, frame)), nil
+			}
 			return f.resp(req, 200, "application/json", frame), nil
 		}
 		return f.resp(req, 400, "", ""), nil
@@ -773,7 +777,7 @@ func (w *wireWorld) apply2(kind string, p *tokStream, op string) string {
 	case "live.cli":
 		k := p.next()
 		v, layout, ok := p.frameArg()
-		if !ok || (k != "json" && k != "sse") || layout > 1 {
+		if !ok || (k != "json" && k != "sse" && !strings.HasPrefix(k, "sse.")) || layout > 1 {
 			return "bad-op"
 		}
 		if !w.child {
@@ -838,7 +842,7 @@ func (w *wireWorld) apply2(kind string, p *tokStream, op string) string {
 		}
 		return inputRequestsTok(res.InputRequests)
 	}
-	return "bad-op"
+	return w.apply3(kind, p, op)
 }
 
 // prefetch runs the child-process ops of a case list ahead of time, all in one child.
